@@ -20,9 +20,9 @@ North(lat, lon) == MulS(Cos(lat), Sin(KLat)) - MulS(MulS(Sin(lat), Cos(KLat)), C
 Cross(lat, lon, q) == MulS(East(lat, lon), Cos(q)) + MulS(North(lat, lon), Sin(q))
 Dot(lat, lon, q) == MulS(North(lat, lon), Cos(q)) - MulS(East(lat, lon), Sin(q))
 
-\* q agrees with the bearing within 0.005 degree (+ the fixed-point noise, which dominates within
+\* q agrees with the bearing within 0.001 degree (+ the fixed-point noise, which dominates within
 \* a few degrees of the Kaaba and its antipode, where the bearing is ill-conditioned)
-SinTol == 87             \* sin(0.005 degree) * 10^6
+SinTol == 17             \* sin(0.001 degree) * 10^6
 IsBearing(lat, lon, q) ==
     /\ Dot(lat, lon, q) > 0
     /\ AbsI(Cross(lat, lon, q)) <= MulS(SinTol, Dot(lat, lon, q)) + 6
